@@ -555,10 +555,17 @@ fn c01_serialise_constant_verbatim() {
     assert!(got.is_prefix_of(&want) && want.is_prefix_of(&got));
 }
 
-fn serialise_residual_case<const B: usize, const PO: u8, const NP: usize>(max_q: u32) -> bool {
-    let warmup: usize = kani::any();
-    kani::assume(warmup <= B / NP && warmup <= 2);
-    let r = gen::any_residual::<B, PO, NP>(warmup, max_q);
+/// Residual with CONCRETE shape (parameters and quotients concrete, so every bit position is
+/// concrete) and symbolic remainders; the real writer against the reference writer.
+fn serialise_residual_shape<const B: usize, const PO: u8, const NP: usize>(ps: [u8; NP], qs: [u32; B], warmup: usize) -> bool {
+    let mut rs: [u32; B] = kani::any();
+    let plen = B / NP;
+    let mut t = 0;
+    while t < B {
+        if t < warmup { rs[t] = 0; } else { kani::assume(rs[t] < (1u32 << ps[t / plen])); }
+        t += 1;
+    }
+    let r = gen::residual_from_arrays::<B, PO, NP>(ps, qs, rs, warmup);
     let mut got = RecSink::new(usize::MAX);
     let mut want = RecSink::new(usize::MAX);
     let w = r.write(&mut got);
@@ -567,14 +574,12 @@ fn serialise_residual_case<const B: usize, const PO: u8, const NP: usize>(max_q:
     ref_put_residual(&mut want, &r);
     assert!(got.len == want.len && got.len == r.count_bits());
     assert!(got.is_prefix_of(&want) && want.is_prefix_of(&got));
-    // the crate's own view of the residual values agrees with the zig-zag definition
-    let plen = B / NP;
     let mut t = warmup;
     while t < B {
         assert!(r.residual(t) as i64 == unzigzag(r.quotients()[t], r.rice_params()[t / plen], r.remainders()[t]));
         t += 1;
     }
-    let c = r.quotients()[B - 1] == max_q && r.rice_params()[NP - 1] == 14 && warmup == 1;
+    let c = rs[B - 1] & 1 == 1;
     std::mem::forget(r);
     c
 }
@@ -582,41 +587,57 @@ fn serialise_residual_case<const B: usize, const PO: u8, const NP: usize>(max_q:
 //@ prop: C01
 //@ also: C02 C08
 //@ drives: Residual::write (try_repeat!-unrolled loop), Residual::count_bits, Residual::residual, BitSink::write_zeros (default method), rice::decode_signbit
-//@ bound: block 4 with 1 or 2 partitions, warm-up 0..=2 within the first partition, Rice parameters 0..=14, remainders below 2^parameter, quotients 0..=3 (the write loop is unrolled by 4: one full round)
+//@ bound: block 4; shapes (concrete per path, so that bit positions are concrete): 1 partition with parameter 0, 5 or 14, 2 partitions with parameters (3,9); quotients (0,2,1,0) resp. (1,0,0,3); warm-up 0 or 1; every remainder value below 2^parameter
 //@ asserts: the recorded bits equal the RFC 9639 layout: method 00 | 4-bit partition order | per partition: 4-bit parameter (never 1111), then per non-warm-up sample: quotient zeros, a one, the remainder in parameter bits; length == count_bits(); Residual::residual(t) is the zig-zag decoding of (quotient << parameter | remainder)
 #[kani::proof]
 #[kani::unwind(12)]
-fn c01_serialise_residual_block4() {
-    let c = if kani::any() { serialise_residual_case::<4, 0, 1>(3) } else { serialise_residual_case::<4, 1, 2>(3) };
-    kani::cover!(c);
+fn c01_serialise_residual_shapes() {
+    let sel: u8 = kani::any();
+    let c = match sel {
+        0 => serialise_residual_shape::<4, 0, 1>([0], [0, 2, 1, 0], 0),
+        1 => serialise_residual_shape::<4, 0, 1>([5], [0, 2, 1, 0], 1),
+        2 => serialise_residual_shape::<4, 0, 1>([14], [1, 0, 0, 3], 0),
+        _ => serialise_residual_shape::<4, 1, 2>([3, 9], [0, 2, 1, 0], 1),
+    };
+    kani::cover!(c && sel == 3);
 }
 
 //@ prop: C01
-//@ tier: thorough
-//@ drives: Residual::write with long unary runs and more partitions
-//@ bound: block 8 with 4 partitions, quotients 0..=2; block 4 with quotients 0..=64
-//@ asserts: as c01_serialise_residual_block4
+//@ also: C02 C08
+//@ drives: Residual::write with symbolic unary length
+//@ bound: block 1 (one partition), every parameter 0..=14, every quotient 0..=40, every remainder below 2^parameter
+//@ asserts: as c01_serialise_residual_shapes, with the unary run length and the parameter width symbolic
 #[kani::proof]
 #[kani::unwind(12)]
-fn c01_serialise_residual_larger() {
-    let c = if kani::any() { serialise_residual_case::<8, 2, 4>(2) } else { serialise_residual_case::<4, 0, 1>(64) };
-    kani::cover!(c);
+fn c01_serialise_residual_unary() {
+    let r = gen::any_residual::<1, 0, 1>(0, 40);
+    let mut got = RecSink::new(usize::MAX);
+    let mut want = RecSink::new(usize::MAX);
+    let w = r.write(&mut got);
+    assert!(w.is_ok());
+    std::mem::forget(w);
+    ref_put_residual(&mut want, &r);
+    assert!(got.len == want.len && got.len == r.count_bits());
+    assert!(got.is_prefix_of(&want) && want.is_prefix_of(&got));
+    kani::cover!(r.quotients()[0] == 40 && r.rice_params()[0] == 14);
+    std::mem::forget(r);
 }
 
 //@ prop: C01
 //@ also: C02 C08
 //@ drives: FixedLpc::write, Lpc::write, QuantizedParameters accessors
-//@ bound: block 4, one partition; fixed order 2 / LPC order 2; widths 8..=25; warm-up samples of that width; precision 1..=15 with coefficients fitting it; shift 0..=15; Rice parameter <= 14; quotients <= 2
+//@ bound: block 4, one partition (parameter 6, quotients (0,1,2) after the warm-up, every remainder); fixed order 2 / LPC order 2; widths 16 and 25; every warm-up sample of that width; precision 5 and 15 with every coefficient fitting it; every shift 0..=15
 //@ asserts: the recorded bits equal the RFC 9639 layout: 0 | type (001ooo fixed / 1ooooo LPC with order-1) | 0 | warm-up samples | [LPC: precision-1 in 4 bits (never 1111), shift as 5-bit two's complement (non-negative), coefficients in precision bits] | residual
 #[kani::proof]
 #[kani::unwind(12)]
 fn c01_serialise_fixed_and_lpc() {
-    let bps = gen::any_bps();
+    // widths are two-valued so that bit positions stay (nearly) concrete
+    let bps: u8 = if kani::any() { 16 } else { 25 };
     let warm = [gen::any_sample(bps), gen::any_sample(bps)];
     let mut got = RecSink::new(usize::MAX);
     let mut want = RecSink::new(usize::MAX);
     if kani::any() {
-        let f = gen::fixed_from::<2>(warm, gen::any_residual::<4, 0, 1>(2, 2), bps);
+        let f = gen::fixed_from::<2>(warm, gen::residual_sym_remainders::<4, 0, 1>([6], [0, 0, 1, 2], 2), bps);
         assert!(f.write(&mut got).is_ok());
         want.put(((0b001000u64 | 2) << 1) << 56, 8);
         ref_put_signed(&mut want, warm[0] as i64, bps as usize);
@@ -626,14 +647,13 @@ fn c01_serialise_fixed_and_lpc() {
         kani::cover!(warm[0] < 0);
         std::mem::forget(f);
     } else {
-        let precision: usize = kani::any();
-        kani::assume(precision >= 1 && precision <= 15);
+        let precision: usize = if kani::any() { 15 } else { 5 };
         let shift: i8 = kani::any();
         kani::assume(shift >= 0 && shift <= 15);
         let coefs: [i16; 2] = kani::any();
         let lim = 1i32 << (precision - 1);
         kani::assume((coefs[0] as i32) < lim && (coefs[0] as i32) >= -lim && (coefs[1] as i32) < lim && (coefs[1] as i32) >= -lim);
-        let l = gen::lpc_from::<2>(warm, coefs, shift, precision, gen::any_residual::<4, 0, 1>(2, 2), bps);
+        let l = gen::lpc_from::<2>(warm, coefs, shift, precision, gen::residual_sym_remainders::<4, 0, 1>([6], [0, 0, 1, 2], 2), bps);
         assert!(l.write(&mut got).is_ok());
         want.put(((0b100000u64 | 1) << 1) << 56, 8);
         ref_put_signed(&mut want, warm[0] as i64, bps as usize);
@@ -716,12 +736,12 @@ fn c08_vacuity_twin() {
 
 //@ prop: C01
 //@ expect: fail
-//@ drives: (reachability witness) serialise_residual_case::<4,0,1>
-//@ bound: as c01_serialise_residual_block4
+//@ drives: (reachability witness) serialise_residual_shape::<4,0,1>
+//@ bound: as c01_serialise_residual_shapes
 #[kani::proof]
 #[kani::unwind(12)]
 fn c01_vacuity_twin() {
-    let _ = serialise_residual_case::<4, 0, 1>(3);
+    let _ = serialise_residual_shape::<4, 0, 1>([5], [0, 2, 1, 0], 1);
     assert!(false);
 }
 
